@@ -147,6 +147,20 @@ def extra_configs(prop, tier, seed):
                               n_terminals=3, n_iter=2, box='wide', lb=[-4.0] * nv, ub=[6.0] * nv, objective='nanpart', adv=0.0,
                               store_best_only=False,
                               hyper={'p_reproduction': 0.0, 'p_mutation': 0.0, 'p_crossover': 0.0, 'prunning_ratio': 0.0}))
+    if prop == 'C02':
+        # objectives that keep improving beyond the box, for the kinds that evaluate trial solutions of their own: a value returned
+        # for an out-of-box trial would be the smallest returned and yet nobody's fitness (long runs, larger populations: not a
+        # matter of the seed)
+        rng = _random.Random(seed * 83 + 57)
+        pool = [c for c in runlevel.gen_configs('thorough', seed + 241) if c['space'] == 'search']
+        for kind in ('ABC', 'BA', 'BHA', 'CS', 'FPA', 'HS', 'IHS', 'SA'):
+            for j_, c in enumerate([c for c in pool if c['kind'] == kind][:2 if tier == 'quick' else 6]):
+                nv = max(c['n_vars'], 2)
+                box = ['unit', 'offset'][j_ % 2]
+                c = dict(c, hook='observer', adv=0.0, n_iter=12, n_agents=max(c['n_agents'], 8), n_vars=nv, objective='outside', box=box,
+                         hyper={}, store_best_only=False)
+                c['lb'], c['ub'] = runlevel.make_box(rng, box, nv)
+                extra.append(c)
     if prop in ('C01', 'C02'):
         # rare sites: GP best on the boundary, ABC scout, BHA double exchange
         rng = _random.Random(seed * 17 + 3)
@@ -442,9 +456,15 @@ def extra_configs(prop, tier, seed):
         rng = _random.Random(seed * 19 + 11)
         pool = [c for c in runlevel.gen_configs('thorough', seed + 44) if c['kind'] in ('ABC', 'CS', 'FPA', 'HS', 'IHS', 'PSO', 'AIWPSO', 'RPSO')]
         for kind in ('ABC', 'CS', 'FPA', 'HS', 'IHS', 'PSO', 'AIWPSO', 'RPSO'):
-            for c in [c for c in pool if c['kind'] == kind][:5 if tier == 'quick' else 25]:
+            for j_, c in enumerate([c for c in pool if c['kind'] == kind][:5 if tier == 'quick' else 25]):
                 box = rng.choice(['unit', 'offset', 'narrow'])
                 c = dict(c, hook='observer', n_iter=rng.choice([3, 6]), objective=rng.choice(['outside', 'boundary']), box=box)
+                if j_ < 2:
+                    # two long runs per kind on larger populations with several variables (so that the event does not depend on the seed):
+                    # out-of-box trial solutions that look better than anything inside are then a matter of course
+                    c.update(n_iter=12, n_agents=max(c['n_agents'], 8), n_vars=max(c['n_vars'], 2), objective='outside', adv=0.0,
+                             box=['unit', 'offset'][j_], store_best_only=False)
+                    box = c['box']
                 c['lb'], c['ub'] = runlevel.make_box(rng, box, c['n_vars'])
                 extra.append(c)
     return extra
